@@ -101,6 +101,18 @@ def bounded(tier, seed):
     body = 'a,b,c,d,e,f,g\nR,M,N,T,1.5kW,"s",`u`\n@r "d",2020-01-01,12:00:00,C(1.0,2.0),2020-01-01T00:00:00+00:00 UTC,-INF,Bin(text/plain)\n'
     for ver in ('3.1', '3.0.0', '2.0.0', '3', '2.0a', '4.0', '2.5'):
         extra.append('ver:"%s"\n%s' % (ver, body.replace('Bin(text/plain)', 'N') if ver[0] != '2' else body))
+    # JSON documents whose row objects hold their tags in another order than the columns, omit some, or hold them all
+    jdocs = []
+    for ver in ('2.0', '3.0'):
+        cols = [{'name': 'id'}, {'name': 'dis'}, {'name': 'area'}]
+        rows = [{'area': 'n:120 m', 'id': 'r:site1', 'dis': 's:Site One'}, {'dis': 's:Two', 'id': 'r:site2'}, {'id': 'r:site3', 'dis': 's:Three', 'area': 'n:5'},
+                {'area': 'n:7', 'dis': 's:Four'}, {'dis': 's:Five', 'area': 'n:1', 'id': 'r:site5'}]
+        jdocs.append(json.dumps({'meta': {'ver': ver}, 'cols': cols, 'rows': rows}))
+        jdocs.append(json.dumps({'meta': {'ver': ver}, 'cols': list(reversed(cols)), 'rows': rows}))
+    for t in jdocs:
+        cases += 1
+        for kind, what in check_text(t, hszinc.MODE_JSON, 'json-row-order'):
+            _rec(fails, known, kind, what, {'kind': 'doc', 'mode': 'json', 'text': t})
     for t in extra:
         cases += 1
         for kind, what in check_text(t, hszinc.MODE_ZINC, 'extra'):
